@@ -37,9 +37,10 @@ import (
 )
 
 type kase struct {
-	Kind string `json:"kind"` // world | rawpull
-	Seed uint64 `json:"seed"`
-	Ops  int    `json:"ops"`
+	Kind   string `json:"kind"` // world | rawpull
+	Seed   uint64 `json:"seed"`
+	Ops    int    `json:"ops"`
+	Remote string `json:"remote,omitempty"` // "" = file remote through faulty://, "http" = in-process remotesrv
 }
 
 type node struct {
@@ -54,6 +55,7 @@ type world struct {
 	r     *hx.Rng
 	dir   string
 	rem   string
+	url   string // the remote's URL as the databases see it
 	eng   *sqleng.Engine
 	dbs   []string
 	sess  map[string]*sqleng.Session
@@ -736,7 +738,15 @@ func (w *world) push(db, br string, force bool, f faultSpec, withModel bool) str
 		mrefs, mchunks = parseDest(w.ask("dest"))
 	}
 
-	replfault.Plan.Set(f.kind, f.at, f.after)
+	// (only the root-moving Commit: over HTTP the ref update itself uploads a table file of novel
+	// chunks and adds it inside the Commit RPC — "WAC" — so a persistent W/A failure can also strike
+	// in the ref-update phase, which the model's W/A steps do not describe)
+	sticky := w.k.Remote == "http" && f.kind == "C" && !f.after && w.e.Thorough() && w.r.Chance(1, 2)
+	if sticky {
+		replfault.Plan.SetSticky(f.kind, f.at)
+	} else {
+		replfault.Plan.Set(f.kind, f.at, f.after)
+	}
 	args := "'origin','" + br + "'"
 	if force {
 		args = "'--force'," + args
@@ -796,7 +806,10 @@ func (w *world) push(db, br string, force bool, f faultSpec, withModel bool) str
 			}
 		}
 	}
-	if cls == "rejected" && moved {
+	// (with a lost acknowledgement the update DID happen; a retrying client then finds the branch
+	// already moved and reports a rejection — the ref may only have moved to the pushed commit,
+	// which the invented-ref clause above enforces)
+	if cls == "rejected" && moved && !(f.after && fired) {
 		w.violate("rejected-push-moved-ref", fmt.Sprintf("%s was rejected but remote %s moved %s -> %s", desc, br, before[br], after[br]))
 	}
 	// ---- model comparison
@@ -812,6 +825,19 @@ func (w *world) push(db, br string, force bool, f faultSpec, withModel bool) str
 			// the planned fault never happened (e.g. nothing to upload): the model was interrupted
 			// at a step the implementation never reached; compare against the un-faulted model
 			w.e.Rep.Hit("push-fault-not-reached")
+		} else if w.k.Remote == "http" && f.kind != "" && !sticky {
+			// the remotestorage client retries a failed RPC / upload (exponential back-off): a
+			// one-shot server-side failure is usually masked.  Transport retries are not modelled;
+			// the oracle above still applies.
+			w.e.Rep.Hit("http-fault-retried:" + cls)
+		} else if w.k.Remote == "http" && sticky {
+			// persistent server-side failure: the push must fail and the destination must look as the model says
+			implS := fmt.Sprintf("failed=%v refs=%v new=%v", cls != "ok", sortedRefs(implRefs), diffSet(postDst, preDst))
+			modelS := fmt.Sprintf("failed=%v refs=%v new=%v", modelClass != "ok", sortedRefs(mrefs), diffSet(mchunks, preDst))
+			if implS != modelS {
+				w.disagree(implS+" ("+cls+")", modelS, desc+" [sticky]")
+			}
+			w.e.Rep.Hit("http-fault-sticky:" + cls)
 		} else if impl != model {
 			w.disagree(impl, model, desc)
 		}
@@ -1066,7 +1092,7 @@ func (w *world) opClone() {
 	}
 	desc := fmt.Sprintf("clone %s %s", name, f)
 	replfault.Plan.Set(f.kind, f.at, false)
-	r := w.exec("a", fmt.Sprintf("call dolt_clone('faulty://%s','%s')", w.rem, name))
+	r := w.exec("a", fmt.Sprintf("call dolt_clone('%s','%s')", w.url, name))
 	replfault.Plan.Clear()
 	cls := classOfErr(r)
 	w.logf("%s -> %s", desc, cls)
@@ -1267,6 +1293,22 @@ func runWorld(e *hx.Env, m *hx.Model, k kase) {
 	if err := os.MkdirAll(w.rem, 0o755); err != nil {
 		panic(err)
 	}
+	w.url = "faulty://" + w.rem
+	if k.Remote == "http" {
+		base, stop, err := startRemoteSrv(w.rem)
+		if err != nil {
+			e.Rep.Note("remotesrv could not be started: " + err.Error())
+			e.Rep.Hit("http-remote:unavailable")
+			return
+		}
+		defer stop()
+		w.url = base + "/org/repo"
+		w.rem = filepath.Join(w.rem, "org", "repo")
+		os.MkdirAll(w.rem, 0o755)
+		e.Rep.Hit("world:http-remote")
+	} else {
+		e.Rep.Hit("world:file-remote")
+	}
 	eng, err := sqleng.New(filepath.Join(w.dir, "eng"), sqleng.Options{DBName: "a"})
 	if err != nil {
 		panic(err)
@@ -1286,7 +1328,7 @@ func runWorld(e *hx.Env, m *hx.Model, k kase) {
 	w.must("a", "create table t1 (pk int primary key, a int, b text)")
 	w.must("a", "insert into t0 values (1,'one'),(2,'two')")
 	w.must("a", "call dolt_commit('-Am','init tables')")
-	w.must("a", fmt.Sprintf("call dolt_remote('add','origin','faulty://%s')", w.rem))
+	w.must("a", fmt.Sprintf("call dolt_remote('add','origin','%s')", w.url))
 	// first push (sometimes interrupted first, so that the remote starts with unlisted garbage)
 	if w.r.Chance(1, 3) {
 		w.push("a", "main", false, faultSpec{kind: hx.Pick(w.r, []string{"W", "A", "C"}), at: 0}, true)
@@ -1373,7 +1415,11 @@ func main() {
 	}
 	nw := e.N(4, 12)
 	for i := 0; i < nw; i++ {
-		run(kase{Kind: "world", Seed: e.Rng.U64() % 1000000, Ops: e.N(12, 24)})
+		k := kase{Kind: "world", Seed: e.Rng.U64() % 1000000, Ops: e.N(12, 24)}
+		if i%3 == 2 {
+			k.Remote = "http"
+		}
+		run(k)
 	}
 	nr := e.N(4, 12)
 	for i := 0; i < nr; i++ {
